@@ -412,3 +412,16 @@ func init() {
 		return &DupTag{Name: strN(v % 4), Code: strN((v / 2) % 4), Age: v % 6}
 	}, []string{"", "v2"}})
 }
+
+// CaseTag carries rules under two tag names that differ only in the case of a letter (struct tag keys are case-sensitive).
+type CaseTag struct {
+	Name string `valid:"required" Valid:"to=1~3"`
+	Note string `valid:"required" Valid:"le=1"`
+	Code string `VALID:"required"`
+}
+
+func init() {
+	statics = append(statics, typeInfo{"CaseTag", func(v int) interface{} {
+		return &CaseTag{Name: strN(v % 6), Note: strN((v / 2) % 3), Code: strN(v % 2)}
+	}, []string{"", "Valid", "VALID"}})
+}
